@@ -409,6 +409,9 @@ def _code_to_slice_BoolOp_values(
         if not ast_.values:  # put empty sequence is same as delete
             return None
 
+        if fst_.pars().n:  # grouping pars of the slice container itself are not part of the slice, otherwise an operator added at an element would wind up inside them
+            fst_._unparenthesize_grouping(False)
+
         _set_loc_whole(fst_)
 
         return fst_
@@ -546,6 +549,9 @@ def _code_to_slice_Compare__all(
     is_slice_type = ast__cls is Compare
 
     if is_slice_type and (not one or not ast_.comparators):  # if is singleton Comparator invalid AST slice then we just return it even if putting as one=True since by fact that it was already in a Compare it doesn't need any pars added
+        if fst_.pars().n:  # grouping pars of the slice container itself are not part of the slice, otherwise an operator added at an element would wind up inside them
+            fst_._unparenthesize_grouping(False)
+
         _set_loc_whole(fst_)
 
         return fst_
